@@ -413,6 +413,12 @@ func (e *Engine) Evaluate(c *Case) ([]string, error) {
 		}
 		if !bytes.Equal(ref.Stdout, run.Stdout) {
 			obs.FirstDiff = firstDiff(ref.Stdout, run.Stdout)
+			// show the difference inside the generated file when both responses carry one
+			if _, rc, _, rn, e1 := responseFile(ref.Stdout); e1 == nil && rn == 1 {
+				if _, xc, _, xn, e2 := responseFile(run.Stdout); e2 == nil && xn == 1 && rc != xc {
+					obs.FirstDiff = "in the generated file, " + firstDiff([]byte(rc), []byte(xc))
+				}
+			}
 			fails = append(fails, "response bytes differ from the reference run: "+obs.FirstDiff)
 		}
 	case "identical-file":
